@@ -15,6 +15,7 @@ ASSUMPTIONS = [
     "fits = capacity - (writer position - published reader position) >= record size, read from the producer's queue node before the call",
     "allocation = any call of malloc/calloc/realloc/memalign/aligned_alloc/posix_memalign (global operator new resolves to malloc) or mmap on the calling thread between entering and leaving the log macro; frees are not counted",
     "formatting on the caller is observed through the user formatters of the harness's deferred-format types (trivial, non-trivial, allocating) and direct-format type; fmt's built-in formatters cannot be observed directly (a caller-side use of them would show up as allocation or as a C04 size change only)",
+    "every process also runs one fixed scenario with a user-defined FrontendOptions type (BoundedBlocking, 64 KiB): a fresh thread calls that frontend's preallocate() and then logs three statements through its logger; judged like any other steady call",
     "harness compiled with -O1 -DNDEBUG like the suite; glibc malloc",
 ]
 
@@ -65,9 +66,17 @@ def validate(ck, results, lines, index, depth=0):
     case = next((c for c in cs if c["id"] == cid), None)
     if case is None:
         # the argument-less statement the runtime logs twice when the caller thread starts (case -1): a log call like any other
+        # or (case -3) the statements a fresh thread logs through a CUSTOM FrontendOptions logger after that frontend's preallocate()
+        neg = next((x.get("case") for x in reversed(lines[:at + 1]) if x["e"] == "LogBegin"), -1)
         cid = -1
-        case = {"id": -1, "origin": "runtime", "cpp": 'LOG_INFO(h.logger, "calibrate");', "stmts": [
-            {"types": ["no-arguments"], "ctypes": [], "macro": "LOG_INFO", "cls": "covered"}]}
+        if neg == -3:
+            case = {"id": -3, "origin": "runtime", "cpp": "CustomFrontend::preallocate(); LOG_INFO(custom_logger, ...);  // rt_codec.cpp custom_frontend_scenario",
+                    "stmts": [{"types": ["custom-frontend-after-preallocate"], "ctypes": ["(none) / int, std::string / char const*, double"],
+                               "macro": "LOG_INFO/LOG_WARNING via LoggerImpl<CustomFOpts>", "cls": "covered"}]}
+        else:
+            case = {"id": -1, "origin": "runtime", "cpp": 'LOG_INFO(h.logger, "calibrate");', "stmts": [
+                {"types": ["no-arguments"], "ctypes": [], "macro": "LOG_INFO", "cls": "covered"}]}
+        cid = case["id"]
         cid = -1
     # the rejection must repeat when the case runs alone (on the steady caller thread of a new process)
     rc2, recs2 = codec.run_bin(exe, only=[cid if cid >= 0 else -2])
